@@ -306,6 +306,63 @@ def scaling_worker(arg):
     return col
 
 
+def atheris_campaign(seed, runs, seeded):
+    """Run one libFuzzer campaign in a subprocess. -> Collector"""
+    import shutil
+    import subprocess
+    import tempfile
+    col = core.Collector()
+    deps = os.path.join(core.ROOT, ".deps")
+    if not os.path.isdir(os.path.join(deps, "atheris")):
+        col.notes["atheris not installed (run ./setup.sh): campaign skipped"] += 1
+        return col
+    work = os.path.join(core.ROOT, ".work")
+    os.makedirs(work, exist_ok=True)
+    d = tempfile.mkdtemp(prefix="c02-fuzz-", dir=work)
+    try:
+        corpus = os.path.join(d, "corpus")
+        os.makedirs(corpus)
+        if seeded:
+            for i, sc in enumerate(corpus_scripts()):
+                if len(sc) <= 400:
+                    with open(os.path.join(corpus, "seed%03d" % i), "wb") as fp:
+                        fp.write(sc)
+        dic = os.path.join(d, "dict")
+        with open(dic, "w") as fp:
+            for t in T.FULL:
+                fp.write('"%s"\n' % "".join("\\x%02x" % c for c in t))
+        findings = os.path.join(d, "findings.jsonl")
+        env = dict(os.environ, PYTHONPATH=os.pathsep.join([core.ROOT, impl.REPO, deps]))
+        cmd = [sys.executable, "-m", "vf.fuzz_c02", findings, corpus, "-runs=%d" % runs, "-seed=%d" % (seed + 1), "-max_len=256",
+               "-dict=" + dic, "-print_final_stats=1", "-verbosity=0"]
+        try:
+            r = subprocess.run(cmd, cwd=core.ROOT, env=env, capture_output=True, text=True, timeout=3600)
+        except subprocess.TimeoutExpired:
+            col.inconclusive.append("atheris campaign (seeded=%s) hit the 1 h ceiling" % seeded)
+            return col
+        execs = 0
+        for line in (r.stderr + r.stdout).splitlines():
+            if "stat::number_of_executed_units" in line:
+                execs = int(line.split()[-1])
+        if execs == 0:
+            col.notes["atheris campaign produced no statistics (exit %d): %s" % (r.returncode, (r.stderr or "")[-200:].replace("\n", " "))] += 1
+            return col
+        ncorp = len(os.listdir(corpus))
+        col.case(key=("atheris-%s" % seeded).encode(), nontrivial=True, classes=("src:atheris-seeded" if seeded else "src:atheris-empty",),
+                 sample={"campaign": "atheris", "seeded_corpus": seeded, "executions": execs, "corpus_size_after": ncorp}, n=1)
+        col.evals += execs - 1
+        col.nt_counted += ncorp  # distinct coverage-increasing inputs kept by libFuzzer
+        col.notes["atheris seeded=%s executions=%d corpus=%d" % (seeded, execs, ncorp)] += 1
+        if os.path.exists(findings):
+            for line in open(findings):
+                f = json.loads(line)
+                data = base64.b64decode(f["data"])
+                col.fail(f["bucket"], {"data": data, "as_str": False}, {"input": data, "found_by": "atheris", "detail": f["detail"]})
+    finally:
+        shutil.rmtree(d, ignore_errors=True)
+    return col
+
+
 def extra_worker(arg):
     kind, payload = arg
     if kind == "bytes":
@@ -316,6 +373,8 @@ def extra_worker(arg):
         return file_worker(payload)
     if kind == "scaling":
         return scaling_worker(payload)
+    if kind == "atheris":
+        return atheris_campaign(*payload)
     raise core.HarnessError(kind)
 
 
@@ -387,6 +446,8 @@ def main(tier, seed, t0):
     extra += [("file", (seed * 1000 + 200 + k, 60 if quick else 600)) for k in range(2)]
     n0 = 400 if quick else 3000
     extra += [("scaling", (name, n0)) for name in sorted(FAMILIES)]
+    runs = 20000 if quick else 1500000
+    extra += [("atheris", (seed, runs, True)), ("atheris", (seed, runs, False))]
     col.merge(core.run_shards(extra_worker, extra))
     need = ["src:blind", "src:guided", "src:gen", "src:mutant", "src:bytes", "src:collision", "src:parse_file",
             "src:scaling", "input:str", "verdict:False", "verdict:True"]
